@@ -21,8 +21,8 @@
       tok       seeded sample of enumerated tokenizers + random points of the RAW product (invalid ones
                 included): name grammar, validity, twin (independently built equal object), the same
                 configuration built in 3 other processes (PYTHONHASHSEED 0 / 1 / random)
-      io        serialize -> load, serialize -> json text -> load, ZANJ save -> read: per family
-                exhaustively (element inside the default tokenizer) and for the sample
+      io        serialize -> load, serialize -> json text (sorted keys) -> load, ZANJ save -> read, reload (same dict loaded
+                twice, then overwritten): per family exhaustively (element inside the default tokenizer) and for the sample
       use       HISTORY of an object: every enumerated element inside the DEFAULT tokenizer (shared default
                 instances) and every sampled tokenizer: name / hash() / hash_b64() fresh, after to_tokens and
                 maze.as_tokens on a solved, a targeted and a plain 3x3 maze, of an equal twin built AFTER the
@@ -34,6 +34,24 @@
       legacy    from_legacy for the 3 modes (enum value and MazeTokenizer object), legacyset: who reports
                 is_legacy_equivalent (quick: all one-component neighbours of the images + the sample;
                 thorough: all 5 878 656)
+
+Audit 2 (input / history classes C-H of harness/AUDIT2_PROMPT.txt)
+  G/E/A   every family is enumerated a SECOND time in the process with the validity rules handed over as the caller's own plain
+          dict by keyword (the wrapper has one code path per calling convention and converts to a frozendict); the dict must come
+          back unmodified (M:validation_funcs_argument_modified) and is emptied before the instances are read
+  C       all_instances(cls, {}) positional / keyword = the unvalidated space (rawcount, Layer M); sample_all_tokenizers(0) and
+          sample_tokenizers_for_test(0) among the consumers of the history worker; from_legacy(MazeTokenizer(max_grid_size=None))
+  E/F/A   io via "reload": an earlier serialize() result is overwritten by its owner, the SAME serialized dict is loaded twice, must
+          be left unmodified (deep snapshot, M:load_modifies_its_argument) and is overwritten in place BEFORE the second loaded
+          tokenizer is read;  G: the "json" text is written with sorted keys
+  F       use histories also COLLECT derived state without tokenizing: is_valid, is_legacy_equivalent, summary, tokenizer_elements
+          (cached_property), element tree / dict, has_element, is_AOTP / is_UT, str, repr, serialize (result overwritten)
+  H/D     use histories also tokenize a 2x5 maze WITHOUT any connection whose solution has length 1 (start == end in the last
+          column) -- with every element of every family and every sampled tokenizer (AllLatticeEdges documents "only square
+          mazes": its AssertionError is an outcome of the use, not judged here)
+  not generated (outside the statement's quantifier): mutating the list get_all_tokenizers() returns (it is the functools.cache'd
+  object itself; sample_tokenizers_for_test(None) hands it out too), field values outside the declared types (an ordinal 1.0
+  or numpy Booleans print differently while comparing equal, a hand-written `_type_`), an empty step_tokenizers tuple.
 
 Interpretation decisions
   * "tokenizer" = MazeTokenizerModular.  hash() of a single ELEMENT is not part of the statement; the model
@@ -230,6 +248,7 @@ def observe_families():
     from maze_dataset.utils import all_instances
 
     recs, insts = [], {}
+    late = []  # (the second enum record of a family goes to the end of the batch: the two large ones then fall into different oracle shards)
     elem_hash = {}
     for K, base in _bases().items():
         res, xs = _run(lambda: list(all_instances(base, VF)))
@@ -251,7 +270,7 @@ def observe_families():
         ys = ys or []
         cfgs3 = [dump(e) for e in ys]
         ok3 = all(typed(c) for c in cfgs3)
-        recs.append(dict(kind="enum", K=K, via="keyword dict (2nd enumeration in the process)", vf_intact=intact, res=res3, typed=ok3, names=[_s(lambda: e.name) for e in ys], cfgs=cfgs3 if ok3 else [], hashes=[_h(lambda: hash(e)) for e in ys]))
+        late.append(dict(kind="enum", K=K, via="keyword dict (2nd enumeration in the process)", vf_intact=intact, res=res3, typed=ok3, names=[_s(lambda: e.name) for e in ys], cfgs=cfgs3 if ok3 else [], hashes=[_h(lambda: hash(e)) for e in ys]))
         res2, raw = _run(lambda: list(all_instances(base, None)))
         raw = raw or []
         recs.append(dict(kind="rawcount", K=K, via="None", n=len(raw), res=res2))
@@ -266,7 +285,7 @@ def observe_families():
                 recs.append(dict(kind="untyped", K=K, repr=repr(c)[:300]))
                 continue
             recs.append(dict(kind="raw", K=K, cfg=c, name=_s(lambda: e.name), valid=_tf(lambda: wrap(K, e).is_valid()), in_enum=ckey(c) in inenum))
-    return recs, insts, elem_hash
+    return recs + late, insts, elem_hash
 
 
 def _nontrivial_raw(r):
@@ -327,7 +346,9 @@ def observe_io(args):
         return u
 
     one("serialize", lambda: MTM.load(t.serialize()))
-    one("json", lambda: MTM.load(json.loads(json.dumps(t.serialize()))))
+    # (audit 2, class G: the JSON text is written with SORTED keys -- another representation of the same saved value; the
+    # insertion-ordered dict is the "serialize" case above)
+    one("json", lambda: MTM.load(json.loads(json.dumps(t.serialize(), sort_keys=True))))
     one("reload", reload)
     if with_zanj:
         from zanj import ZANJ
@@ -1023,10 +1044,10 @@ def main(chk: lib.Check) -> int:
     thorough = chk.tier == "thorough"
     chk.rule = (
         "cases = (a) every point of each of the 9 element parameter spaces (raw: all classes x all field values; enum: the validated "
-        "enumeration), (b) the complete get_all_tokenizers() list as one 'space' case + a seeded sample of its members and of random points "
+        "enumeration, taken twice per process: the library's frozendict of validity rules positionally / the caller's own dict by keyword), (b) the complete get_all_tokenizers() list as one 'space' case + a seeded sample of its members and of random points "
         "of the raw product as 'tok' cases (each built in 3 more processes), (c) save/load cases (per family exhaustive inside the default "
-        "tokenizer + the sample), (d) legacy mapping cases, (e) HISTORY cases: every (c)-tokenizer observed fresh, after tokenizing a solved / targeted / "
-        "plain maze, against a twin built afterwards and after save/load ('use'); the enumeration observed before and after all its public consumers "
+        "tokenizer + the sample; the saved dict also loaded twice and overwritten by the caller), (d) legacy mapping cases, (e) HISTORY cases: every (c)-tokenizer observed fresh, after tokenizing a solved / targeted / "
+        "plain 3x3 maze and an unconnected 2x5 maze with a length-1 solution and after every non-tokenizing query, against a twin built afterwards and after save/load ('use'); the enumeration observed before and after all its public consumers "
         "ran in one process ('history'); non-trivial = a point a validity rule excludes or a nested/tuple-valued "
         "configuration (raw), a complete tokenizer whose configuration differs from every other case (tok/io)"
     )
